@@ -15,6 +15,7 @@ import sys
 from .. import core
 from ..model.gf import Fld
 from .conv import ival
+from . import install as _install
 from .install import _safe
 
 REF = "py_ecc.fields.field_elements"
@@ -210,6 +211,8 @@ def _patch_method(cls, name, handler, is_ctor=False):
     if is_ctor:
         @functools.wraps(orig)
         def w(self_, *a, **k):
+            if _install.PASSTHROUGH[0]:
+                return orig(self_, *a, **k)
             try:
                 orig(self_, *a, **k)
             except BaseException as e:
@@ -218,6 +221,8 @@ def _patch_method(cls, name, handler, is_ctor=False):
     else:
         @functools.wraps(orig)
         def w(self_, *a, **k):
+            if _install.PASSTHROUGH[0]:
+                return orig(self_, *a, **k)
             _DEPTH[0] += 1
             try:
                 res = orig(self_, *a, **k)
